@@ -185,6 +185,49 @@ def rule_o9(ctx) -> None:
             ctx.finding("C17-O9", "SynCmd.cmd_benchmark.run:pairing", bf.loc(c), "the two reactions compared by the benchmark are not the normal forms of the same row (%s; %s): a row is then compared with the expected reaction of another row" % (o1[:2], o2[:2]))
 
 
+def rule_o13(ctx) -> None:
+    """Symmetry clause: `_fp(mol1, mol2)` computes both fingerprints the same way.  Every statement that looks at one of
+    the two molecules has its mirror image for the other (`fp1 = gen.GetFingerprint(mol1)` / `fp2 = .. (mol2)`); a
+    setting derived from one argument only (a fingerprint size chosen from `mol1.GetNumAtoms()`) makes
+    wc_similarity(a, b) differ from wc_similarity(b, a)."""
+    ctx.rule("C17-O13", "in the fingerprint helper every statement that reads one molecule has its mirror image for the other", 3)
+    prog = ctx.prog
+    f = prog.func("synrbl.SynUtils.chem_utils.wc_similarity")
+    inner = [g for g in prog.functions.values() if g.parent is f and len(g.params) == 2]
+    ctx.require(inner, "wc_similarity lost its two-molecule fingerprint helper")
+    for g in inner:
+        a, b = g.params
+        stmts = [x for x in own_nodes(g.node) if isinstance(x, (ast.Assign, ast.AugAssign, ast.Expr, ast.Return))]
+        texts_ = {unparse(x) for x in stmts}
+
+        import copy as _copy
+
+        class _Swap(ast.NodeTransformer):
+            def visit_Name(self, node):
+                if node.id == a:
+                    node.id = b
+                elif node.id == b:
+                    node.id = a
+                elif node.id.endswith("1"):
+                    node.id = node.id[:-1] + "2"
+                elif node.id.endswith("2"):
+                    node.id = node.id[:-1] + "1"
+                return node
+
+        def mirror(x) -> str:
+            return unparse(_Swap().visit(_copy.deepcopy(x)))
+
+        for x in stmts:
+            names = {n.id for n in ast.walk(x) if isinstance(n, ast.Name)}
+            if (a in names) == (b in names):
+                continue
+            t = unparse(x)
+            ok = mirror(x) in texts_
+            ctx.instance("C17-O13", "%s: `%s` has a mirror image: %s" % (g.name, t[:50], ok), g.loc(x), ok=ok)
+            if not ok:
+                ctx.finding("C17-O13", "chem_utils.wc_similarity.%s:one-sided-use-of-argument" % g.name, g.loc(x), "`%s` reads only one of the two molecules and has no mirror image for the other: what it computes (a fingerprint size, a generator setting) then depends on which reaction is passed first, and wc_similarity(a, b) != wc_similarity(b, a)" % t[:60])
+
+
 def rule_o10(ctx) -> None:
     """Range clause: every value `wc_similarity` returns lies in [0, 1].  Tanimoto and Dice similarities do; constants
     inside the interval do; a minimum / maximum of such values does.  A start value outside the interval (`np.inf` for a
@@ -314,10 +357,16 @@ def check(ctx) -> None:
     rule_o8(ctx)
     rule_o9(ctx)
     rule_o10(ctx)
+    rule_o13(ctx)
     # O11: the benchmark judges each row by that row's similarity (shared pandas label-alignment rule)
     from . import c06 as _c06
 
     _c06.rule_index_alignment(ctx, "C17-O11")
+    # O12: the benchmark reads the reactions it compares as written ('#' is a bond, not a comment sign; shared with
+    # C02-T8)
+    from . import c02 as _c02
+
+    _c02.rule_t8(ctx, "C17-O12")
     # the normal form may be built by normalize_smiles itself or by a helper it calls (e.g. a memoised per-side helper)
     family = [f]
     for c in calls(f):
